@@ -8,7 +8,7 @@ CONSTANTS
   Grams = {1}
   Grams0 = {}
   RegLen0 = 1
-  ProgChoices <- WQuick
+  ProgChoices <- WThorough
   NoLock = {}
   LazyMap = FALSE
 INVARIANT Emit
